@@ -202,3 +202,58 @@ class GlyphDrawIsAnObserver(Contract):
             *[And(eq(a.self.coordinates[i][0], a._pts[i][0]), eq(a.self.coordinates[i][1], a._pts[i][1])) for i in range(a._n)])),
         prop("second-draw-equals-the-first", lambda a, old, r: GlyphDrawIsAnObserver._same_again(r)),
     ]
+
+
+@contract
+class ComponentInfoOffset(Contract):
+    """GlyphComponent.getComponentInfo for EVERY integer offset and real 2x2 matrix, with
+    SCALED_COMPONENT_OFFSET, with UNSCALED_COMPONENT_OFFSET, with neither, and without a matrix:
+    the six-term transformation handed to pens places a point p of the base glyph exactly where
+    Glyph.getCoordinates places it - at (p + offset) * M when the offset is scaled, at
+    p * M + offset otherwise - so what is drawn is what is measured."""
+    module = "fontTools.ttLib.tables._g_l_y_f"
+    qualname = "GlyphComponent.getComponentInfo"
+    props = ("C05", "C14")
+    variants = ("scaled", "unscaled", "neither", "no-matrix", "no-flags-attribute")
+    level = "P"
+    assumptions = ("A-REAL",)
+
+    def rebind(self):
+        return _rebind()
+
+    def args(self, S, variant):
+        c = self.mod.GlyphComponent()
+        c.glyphName = "base"
+        c.x, c.y = S.int("x", -32768, 32767), S.int("y", -32768, 32767)
+        m = None
+        if variant != "no-matrix":
+            m = [[S.real("xx"), S.real("xy")], [S.real("yx"), S.real("yy")]]
+            c.transform = m
+        if variant != "no-flags-attribute":
+            c.flags = 0x4 | {"scaled": F_SCALED, "unscaled": F_UNSCALED}.get(variant, 0)
+        return dict(self=c, _m=m, _p=(S.real("px"), S.real("py")), _v=variant)
+
+    @staticmethod
+    def _post(a, r):
+        name, t = r
+        if name != "base" or len(t) != 6:
+            return False
+        px, py = a._p
+        x, y = a.self.x, a.self.y
+        drawn = (px * t[0] + py * t[2] + t[4], px * t[1] + py * t[3] + t[5])
+        if a._m is None:
+            want = (px + x, py + y)
+        else:
+            (xx, xy), (yx, yy) = a._m
+            scaled = a._v == "scaled" or (a._v in ("neither", "no-flags-attribute") and bool(a.self_mod_default))
+            if scaled:
+                want = ((px + x) * xx + (py + y) * yx, (px + x) * xy + (py + y) * yy)
+            else:
+                want = (px * xx + py * yx + x, px * xy + py * yy + y)
+        return And(eq(drawn[0], want[0]), eq(drawn[1], want[1]))
+
+    def call(self, f, a):
+        a.self_mod_default = self.mod.SCALE_COMPONENT_OFFSET_DEFAULT
+        return f(a.self)
+
+    ensures = [prop("drawn-where-getCoordinates-puts-it", lambda a, old, r: ComponentInfoOffset._post(a, r))]
